@@ -148,6 +148,13 @@ template <class G> struct C12 {
       // (the derivative of a norm at 0 is NaN in both: the functor must reproduce the documented expression, NaN for NaN)
       double dv = same_dual(rd, ed) ? 0 : std::fabs(rd.a - ed.a) / std::max(1.0, std::fabs(e)) + vf::maxabs((rd.v - ed.v)) / std::max(1.0, (double)vf::maxabs(ed.v));
       close(dv, 1e-12L, "functor_computes_documented_residual", "objective<Dual>/" + key);
+      // a second objective with another target and weight, evaluated after the first (state belongs to the object)
+      manif::CeresObjectiveFunctor<G> ob2(X, 0.5);
+      double r2 = 0; ob2(Y.data(), &r2);
+      double e2 = (X - Y).coeffs().norm() * 0.5;
+      close(std::fabs(r2 - e2) / std::max(1.0, std::fabs(e2)), 1e-15L, "functor_computes_documented_residual", "objective_second_object<double>/" + key);
+      double r3 = 0; ob(X.data(), &r3);
+      close(std::fabs(r3 - e) / std::max(1.0, std::fabs(e)), 1e-15L, "functor_computes_documented_residual", "objective_first_object_again<double>/" + key);
     }
     // constraint: sqrt_info * (m - (future (-) past))
     {
